@@ -112,7 +112,10 @@ def check(prop, tier, seed, t0):
     reg = contract.Registry()
     cs, ls = reg.for_property(prop)
     tasks = []
+    assumed_here = [c.target for c in cs if c.assumed]
     for c in cs:
+        if c.assumed:
+            continue        # assumed contracts are used at call sites only; their bodies get bounded conformance checks
         fnd = [f for f in known['findings'] if f.get('target') == c.target]
         tasks.append(dict(kind='fn', name=c.target, timeout=timeout, findings=fnd))
     for l in ls:
@@ -198,9 +201,18 @@ def check(prop, tier, seed, t0):
     for res, o in violations:
         extra = {}
         confirmed = False
-        if res['kind'] == 'fn' and o.get('model'):
+        if res['kind'] == 'fn':
             try:
-                r = native.replay_function(res['name'], o['model'])
+                r = native.replay_function(res['name'], o['model']) if o.get('model') and native.model_is_native(o['model']) else dict(confirmed=False)
+                if not r['confirmed']:
+                    # the counter-model is abstract (or not reproducible in floats): search the function's bounded pool
+                    from . import pools
+                    for inp in pools.function_inputs(res['name'], seed):
+                        r2 = native.replay_function(res['name'], inp)
+                        if r2['confirmed']:
+                            r = r2
+                            o['model'] = inp
+                            break
                 extra = dict(native=r)
                 confirmed = r['confirmed']
             except Exception as ex:
@@ -219,7 +231,7 @@ def check(prop, tier, seed, t0):
     level = plan['level']
     wall = time.time() - t0
     trusted = sorted('model contract of library function %s (assumed, conformance-tested)' % l for l in lib_used)
-    trusted += ['assumed contract (body not verified here): %s' % c.target for c in reg.by_target.values() if c.assumed and c.target in used]
+    trusted += ['assumed contract (body not verified deductively; %s): %s' % (c.note or 'bounded conformance only', c.target) for c in reg.by_target.values() if c.assumed and (c.target in used or c.target in assumed_here)]
     trusted += ['z3 %s / cvc5 1.0.3 / z3 4.8.12 as back ends' % __import__('z3').get_version_string(), DROPPED]
     trusted += plan.get('trusted', [])
     cov = dict(obligations=n_ob, discharged=n_ok, checker_cmd='./check %s --tier %s' % (prop, tier), trusted_base=trusted,
